@@ -110,6 +110,17 @@ func differs(c *Case) bool {
 
 var scratchCounter int
 
+// aborted is set after harness trouble: the run is reported as inconclusive
+// (driver exit 2) and the remaining cases are not executed.
+var aborted bool
+
+func abort(format string, args ...any) {
+	if !aborted {
+		ev.Inconclusive("C27 harness trouble: "+format, args...)
+	}
+	aborted = true
+}
+
 func scratch(t testing.TB, base string) string {
 	scratchCounter++
 	d := filepath.Join(base, fmt.Sprintf("case-%d", scratchCounter))
@@ -165,13 +176,17 @@ func TestHookRenameFailure(t *testing.T) {
 		} else {
 			c.Inject = Inject{Kind: InjHookError, Errno: rapid.SampledFrom([]string{"EXDEV", "EACCES", "ENOSPC", "EIO", "EROFS", "EPERM"}).Draw(rt, "errno")}
 		}
+		if aborted {
+			return
+		}
 		root := scratch(t, base)
 		defer os.RemoveAll(root)
 		violation, hit := runHookCase(c, root)
-		rec.Eval()
 		if strings.HasPrefix(violation, "harness: ") {
-			rt.Fatalf("%s", violation)
+			abort("%s", violation)
+			return
 		}
+		rec.Eval()
 		if violation != "" {
 			ev.Failf(rt, rec, c, "%s", violation)
 		}
@@ -254,13 +269,17 @@ func TestFsizeLimit(t *testing.T) {
 			limit = rapid.IntRange(0, len(want)-1).Draw(rt, "limit")
 		}
 		c.Inject = Inject{Kind: rapid.SampledFrom([]string{InjFsizeKill, InjFsizeError}).Draw(rt, "kind"), Limit: int64(limit)}
+		if aborted {
+			return
+		}
 		root := scratch(t, base)
 		defer os.RemoveAll(root)
 		violation, hit := runFsizeCase(c, root)
-		rec.Eval()
 		if strings.HasPrefix(violation, "harness: ") {
-			rt.Fatalf("%s", violation)
+			abort("%s", violation)
+			return
 		}
+		rec.Eval()
 		if violation != "" {
 			ev.Failf(rt, rec, c, "%s", violation)
 		}
@@ -408,18 +427,22 @@ func TestStraceSteps(t *testing.T) {
 	ev.Check(t, rec, 6, 30, func(rt *rapid.T) {
 		c := drawCase(rt, 1<<20)
 		pick := rapid.IntRange(0, 59).Draw(rt, "errno.pick")
+		if aborted {
+			return
+		}
 		root := scratch(t, base)
 		defer os.RemoveAll(root)
 		a, err := NewArena(root, c, -1, false)
 		if err != nil {
-			rt.Fatalf("harness: %v", err)
+			abort("%v", err)
+			return
 		}
 		steps, violation, err := learnSteps(a, c)
-		rec.Eval()
 		if err != nil {
-			ev.Inconclusive("C27 strace learning run failed: %v", err)
-			rt.Skip("learning run failed")
+			abort("strace learning run failed: %v", err)
+			return
 		}
+		rec.Eval()
 		if violation != "" {
 			ev.Failf(rt, rec, c, "%s", violation)
 		}
@@ -452,11 +475,11 @@ func TestStraceSteps(t *testing.T) {
 					cc.Inject = Inject{Kind: InjStraceError, Step: k, Errno: in.errno}
 				}
 				violation, hit, err := runStraceInjection(a, &cc, s, in.kill, in.errno)
-				rec.Eval()
 				if err != nil {
-					ev.Inconclusive("C27 strace run failed: %v", err)
-					rt.Skip("strace run failed")
+					abort("strace run failed: %v", err)
+					return
 				}
+				rec.Eval()
 				label := "kill/" + s.String()
 				if !in.kill {
 					label = "error/" + s.String() + "/" + in.errno
